@@ -462,6 +462,13 @@ def run(rep, tier, seed):
                 if type(row) is not type(e):
                     rep.disagree('TIME_FLAGS/table', [kind, codec], type(e).__name__, type(row).__name__)
 
+    # ---- the canonicaliser itself is translated from the source on every run (gen/py2lean.py -> GenK.timeCanon);
+    # Props/C20.source_canonicaliser_is_model proves translation = canonTime, and the translation is run against
+    # TimeEncoderMixIn.encodeValue here
+    from harness import kernels
+    kernels.obligations(rep, ['timeCanon'])
+    kernels.check(rep, drv, seed, 600 if not thorough else 30000, which=('timeCanon',))
+
     # ---- corpus first
     for c in load_corpus():
         rep.case('corpus ' + json.dumps(c, sort_keys=True), nontrivial=True, sample=c)
